@@ -1044,6 +1044,76 @@ func genCCFB(r *rand.Rand) ([]opJ, []string) {
 	return ops, out
 }
 
+// genCCRefresh: a key is sent again (retransmission with the same (SSRC, seq), or the same TWCC
+// number) after many other packets and is then followed by more packets, so that the number
+// of distinct keys sent since its FIRST use exceeds the history size while the number since its
+// LAST use does not: the history must still hold it (with the record of the last send).
+func genCCRefresh(r *rand.Rand) ([]opJ, []string) {
+	tw := r.Intn(2) == 0
+	var ops []opJ
+	dep := depStart(r)
+	k := uint16(r.Intn(65536)) //nolint:gosec
+	before := 150 + r.Intn(99) // distinct keys between first and second use
+	after := 250 - before + r.Intn(before-10)
+	if after > 248 {
+		after = 248
+	}
+	one := func(seq uint16, size int) {
+		if tw {
+			ops = append(ops, opJ{K: "sent", ExtID: 5, Ext: 1, Twcc: seq, SSRC: 7, Seq: seq, Size: size, Dep: dep})
+		} else {
+			ops = append(ops, opJ{K: "sent", SSRC: 7, Seq: seq, Size: size, Dep: dep})
+		}
+		dep += 1000000
+	}
+	run := func(first uint16, n int) {
+		if tw {
+			ops = append(ops, opJ{K: "run", ExtID: 5, Ext: 1, Twcc: first, SSRC: 7, Seq: first, Size: 200, Dep: dep, DDep: 1000, N: n})
+		} else {
+			ops = append(ops, opJ{K: "run", SSRC: 7, Seq: first, Size: 200, Dep: dep, DDep: 1000, N: n})
+		}
+		dep += int64(n)*1000 + 1000000
+	}
+	one(k, 300)
+	run(k+1, before)
+	one(k, 900) // second use: refreshes the entry
+	run(k+1+uint16(before), after) //nolint:gosec
+	// feedback about k and its neighbours
+	if tw {
+		fb := &rtcp.TransportLayerCC{
+			SenderSSRC: 1, MediaSSRC: 7, BaseSequenceNumber: k, PacketStatusCount: 2,
+			ReferenceTime: uint32(r.Intn(1 << 20)), FbPktCount: 1, //nolint:gosec
+			PacketChunks: []rtcp.PacketStatusChunk{&rtcp.RunLengthChunk{
+				Type: rtcp.TypeTCCRunLengthChunk, PacketStatusSymbol: rtcp.TypeTCCPacketReceivedSmallDelta, RunLength: 2,
+			}},
+			RecvDeltas: []*rtcp.RecvDelta{mkDelta(r, rtcp.TypeTCCPacketReceivedSmallDelta), mkDelta(r, rtcp.TypeTCCPacketReceivedSmallDelta)},
+		}
+		if raw := marshalTWCC(fb); raw != nil {
+			ops = append(ops, opJ{K: "twcc", Raw: hex.EncodeToString(raw)})
+		}
+	} else {
+		fb := &rtcp.CCFeedbackReport{SenderSSRC: 3, ReportTimestamp: uint32(r.Intn(1 << 30))} //nolint:gosec
+		rb := rtcp.CCFeedbackReportBlock{MediaSSRC: 7, BeginSequence: k}
+		for i := 0; i < 2; i++ {
+			rb.MetricBlocks = append(rb.MetricBlocks, rtcp.CCFeedbackMetricBlock{
+				Received: true, ECN: rtcp.ECN(r.Intn(4)), ArrivalTimeOffset: uint16(r.Intn(0x1FFE)), //nolint:gosec
+			})
+		}
+		fb.ReportBlocks = append(fb.ReportBlocks, rb)
+		if raw := marshalCCFB(fb); raw != nil {
+			ops = append(ops, opJ{K: "ccfb", Raw: hex.EncodeToString(raw)})
+		}
+	}
+	tags := []string{"key-sent-again-keeps-its-place"}
+	if tw {
+		tags = append(tags, "twcc")
+	} else {
+		tags = append(tags, "ccfb")
+	}
+
+	return ops, tags
+}
+
 // genFB: a history for the rtpfb interceptor: TWCC-tracked and (SSRC, seq)-tracked streams,
 // interleaved sends, reads with TWCC / CCFB / other RTCP, compounds, retransmissions.
 func genFB(r *rand.Rand) ([]ropJ, []string) {
@@ -1189,6 +1259,99 @@ func genFB(r *rand.Rand) ([]ropJ, []string) {
 	}
 
 	return ops, out
+}
+
+// genFBReuse: a sequence number (TWCC number, or RTP number of one SSRC) is used by two
+// packets; the first is reported (and leaves the history) while the second is still
+// unacknowledged; feedback for the number arrives afterwards and must be attributed to the
+// second packet (the index entry of the number must survive the removal of the first).
+func genFBReuse(r *rand.Rand) ([]ropJ, []string) {
+	tw := r.Intn(2) == 0
+	q := uint16(r.Intn(65536)) //nolint:gosec
+	if r.Intn(3) == 0 {
+		q = uint16(65535 - r.Intn(2)) //nolint:gosec
+	}
+	seq := uint16(r.Intn(65536)) //nolint:gosec
+	now := int64(1700000000)*1000000000 + int64(r.Intn(1000000))*1000
+	mid := 1 + r.Intn(4)
+	var ops []ropJ
+	send := func(tn, sn uint16) {
+		o := ropJ{K: "send", TW: tw, SSRC: 10, Seq: sn, Size: 100 + r.Intn(900), Now: now}
+		if tw {
+			o.Ext = 1
+			o.Twcc = tn
+		}
+		ops = append(ops, o)
+		now += int64(1 + r.Intn(2000000))
+	}
+	// ack: one feedback packet saying "number n .. n+cnt-1 arrived"
+	ack := func(n uint16, cnt int) {
+		var raw []byte
+		if tw {
+			fb := &rtcp.TransportLayerCC{
+				SenderSSRC: 1, MediaSSRC: 10, BaseSequenceNumber: n, PacketStatusCount: uint16(cnt), //nolint:gosec
+				ReferenceTime: uint32(r.Intn(1 << 20)), FbPktCount: uint8(r.Intn(256)), //nolint:gosec
+				PacketChunks: []rtcp.PacketStatusChunk{&rtcp.RunLengthChunk{
+					Type: rtcp.TypeTCCRunLengthChunk, PacketStatusSymbol: rtcp.TypeTCCPacketReceivedSmallDelta, RunLength: uint16(cnt), //nolint:gosec
+				}},
+			}
+			for i := 0; i < cnt; i++ {
+				fb.RecvDeltas = append(fb.RecvDeltas, mkDelta(r, rtcp.TypeTCCPacketReceivedSmallDelta))
+			}
+			raw = marshalTWCC(fb)
+			if raw != nil {
+				ops = append(ops, ropJ{K: "read", Now: now, Pkts: []opJ{{K: "twcc", Raw: hex.EncodeToString(raw)}}})
+			}
+		} else {
+			fb := &rtcp.CCFeedbackReport{SenderSSRC: 3,
+				ReportTimestamp: verifhooks.ToNTP32(time.Unix(0, now-int64(r.Intn(100000000))))}
+			rb := rtcp.CCFeedbackReportBlock{MediaSSRC: 10, BeginSequence: n}
+			for i := 0; i < cnt; i++ {
+				rb.MetricBlocks = append(rb.MetricBlocks, rtcp.CCFeedbackMetricBlock{
+					Received: true, ECN: rtcp.ECN(r.Intn(4)), ArrivalTimeOffset: uint16(r.Intn(0x1FFE)), //nolint:gosec
+				})
+			}
+			fb.ReportBlocks = append(fb.ReportBlocks, rb)
+			raw = marshalCCFB(fb)
+			if raw != nil {
+				ops = append(ops, ropJ{K: "read", Now: now, Pkts: []opJ{{K: "ccfb", Raw: hex.EncodeToString(raw)}}})
+			}
+		}
+		now += int64(1 + r.Intn(20000000))
+	}
+	// first use of the number, some packets in between, second use
+	send(q, seq)
+	for i := 1; i <= mid; i++ {
+		send(q+uint16(i), seq+uint16(i)) //nolint:gosec
+	}
+	if tw {
+		send(q, seq+uint16(mid)+1) //nolint:gosec
+	} else {
+		send(q, seq) // retransmission: same SSRC and RTP sequence number
+	}
+	// the packets in between are acknowledged: the report covers (and removes) the first use
+	ack(func() uint16 {
+		if tw {
+			return q + 1
+		}
+
+		return seq + 1
+	}(), mid)
+	// now the number itself is acknowledged: this is about the second use
+	if tw {
+		ack(q, 1)
+	} else {
+		ack(seq, 1)
+	}
+	ops = append(ops, ropJ{K: "read", Now: now, Pkts: []opJ{{K: "other"}}})
+	tags := []string{"number-reused-after-first-use-reported"}
+	if tw {
+		tags = append(tags, "twcc-number-reused")
+	} else {
+		tags = append(tags, "rtp-number-reused")
+	}
+
+	return ops, tags
 }
 
 // recorderCCFBAt: the real rfc8888.Recorder with arrivals shortly before now.
@@ -1350,9 +1513,17 @@ func main() {
 			addCC(ops, append(tags, "twcc")...)
 		}
 	}
+	for i := 0; i < o.Scale(12, 400); i++ {
+		ops, tags := genCCRefresh(r)
+		addCC(ops, tags...)
+	}
 	nfb := o.Scale(280, 20000)
 	for i := 0; i < nfb; i++ {
 		ops, tags := genFB(r)
+		addFB(ops, tags...)
+	}
+	for i := 0; i < o.Scale(12, 400); i++ {
+		ops, tags := genFBReuse(r)
 		addFB(ops, tags...)
 	}
 	cq.Write(o, "cc: send histories (TWCC-keyed and (SSRC, seq)-keyed, wrap, holes, more than 250 in flight) with 1..6 "+
